@@ -80,15 +80,13 @@ def gen(rng, i, tier):
     return {"spec": spec, "seed": rng.randrange(1 << 40), "model": rng.choice(["linear", "sag", "impedance", "noisy"]),
             "steps": rng.choice([1, 4, 7, 15, 40]), "end": rng.choice(["capacity", "cutoff", "already_below", "capacity"]),
             "history": ["fresh", "identity_change_comp", "index_gaps", "solve_then_move_leaf"][i % 4], "by_rail": i % 3 != 0,
-            "earlier_run": i % 5 in (1, 3)}
+            "earlier_run": i % 5 in (1, 3), "declared_zero": i % 6 == 2}
 
 
 def run(ctx, case):
     ns = loader.load()
     rng = random.Random(case["seed"])
-    spec = case["spec"]
-    # the system is the product of a build history (edited after analysis, registries out of node order, index gaps)
-    spec, sysobj = _rows.build_with_history(ctx, spec, case.get("history", "fresh"), case["seed"] & 0xFFFFFF)
+    spec = copy.deepcopy(case["spec"])
     srcs = [c for c in spec["comps"] if c["kind"] == "Source"]
     b = rng.choice(srcs)
     name = b["name"]
@@ -96,6 +94,15 @@ def run(ctx, case):
     if case.get("by_rail") and railed:
         b = rng.choice(railed)
         name = b["name"]
+    v_decl = abs(float(b["args"]["vo"])) or 5.0
+    if case.get("declared_zero"):
+        # the battery is DECLARED as Source(vo=0.0) - "the model supplies the voltage"; batt_life steps it with the
+        # model's voltage all the same
+        b["args"]["vo"] = 0.0
+        ctx.count("history", "battery declared with vo = 0.0")
+    # the system is the product of a build history (edited after analysis, registries out of node order, index gaps)
+    spec, sysobj = _rows.build_with_history(ctx, spec, case.get("history", "fresh"), case["seed"] & 0xFFFFFF)
+    b = [c for c in spec["comps"] if c["name"] == name][0]
     by_rail = bool(b.get("rail")) and bool(case.get("by_rail", rng.random() < 0.4))
     ref = b["rail"] if by_rail else name
     phases = list((spec.get("phases") or {}).items())
@@ -106,7 +113,7 @@ def run(ctx, case):
         ctx.check("battery.must_be_source", st == "raise" and isinstance(r, ValueError),
                   {"name": bad, "outcome": "returned" if st == "ok" else H.exc_sig(r)})
     # --- battery model -----------------------------------------------------------------------------
-    v0 = abs(float(b["args"]["vo"])) or 5.0
+    v0 = v_decl
     steps = case["steps"]
     cap0 = rng.choice([0.25, 2.0, 150.0])  # < 100 Ah -> mAh progress units, >= 100 -> Ah
     r0 = G.sig(rng.uniform(0.01, 0.3))
